@@ -374,6 +374,8 @@ class Importance(CellModifierInput):
                 if i < length - 1:
                     edge = tree["data"][-1]
                     if isinstance(edge, syntax_node.ValueNode) and edge.padding is None:
+                        if edge._is_reversed:
+                            edge._formatter["value_length"] += 1
                         edge.padding = syntax_node.PaddingNode(" ")
         else:
             new_vals = self._collect_new_values()
